@@ -16,7 +16,7 @@ from ..gen.programs import Cfg
 from . import c02
 
 MODULES = ["ESV.Props.C09", "ESV.Props.C01"]
-THEOREMS = ["ESV.C09.writer_line_inv", "ESV.C09.writer_entry_pos", "ESV.C09.writer_entry_inline_pos", "ESV.C09.inv_step",
+THEOREMS = ["ESV.C09.writer_line_inv", "ESV.C09.writer_entry_pos", "ESV.C09.writer_entry_inline_pos", "ESV.C09.inv_step", "ESV.C09.writer_no_entry_for_markers",
             "ESV.Beh.validate_sound"]
 
 
